@@ -156,8 +156,20 @@ class Fock(BaseState):
         tol: float
             Tolerance when comparing matrices
         """
+        from photon_weave.state.envelope import Envelope
+
         # If state was measured, then do nothing
         if self.measured:
+            return
+        # If state is in composite envelope contract product state there
+        if isinstance(self.index, tuple) or isinstance(self.index, list):
+            assert isinstance(self.composite_envelope, CompositeEnvelope)
+            self.composite_envelope.contract(self)
+            return
+        # If state is in envelope contract product state there
+        elif isinstance(self.index, int):
+            assert isinstance(self.envelope, Envelope)
+            self.envelope.contract()
             return
         if (
             self.expansion_level is ExpansionLevel.Matrix
